@@ -384,15 +384,7 @@ type tableJSON struct {
 }
 
 // recorded findings: location -> code (must agree with Model/C19Cases.c19_findings and known_findings.d/C19.json)
-var knownCode = map[string]int{
-	"server_service_leader.leaderElection.leader":  1,
-	"backend_election.resourceLock.record":         2,
-	"backend_election.resourceLock.tso":            2,
-	"backend_scanner.compactRecordQueue.list":      3,
-	"server_etcd.watcher.watches":                  4,
-	"server_service_etcdproxy.etcdProxy.curLeader": 5,
-	"server_service_etcdproxy.etcdProxy.client":    5,
-}
+var knownCode = map[string]int{}
 
 func verifDir() string {
 	if d := os.Getenv("VERIF_DIR"); d != "" {
